@@ -217,7 +217,10 @@ def run(ctx: Ctx):
             elif k == 1:
                 seq.append(("cms", rng.choice(names)))
             elif k == 2:
-                seq.append(("cml", rng.sample(names, rng.randint(1, 3))))
+                ms = rng.sample(names, rng.randint(1, 3))
+                if rng.random() < 0.2:
+                    ms = ms + [ms[0]]                     # the same name twice in one list: supplied twice, listed twice
+                seq.append(("cml", ms))
             elif k == 3:
                 seq.append(("rx", rng.choice(["r.*", "mod", "m.*"])))
             elif k == 4:
